@@ -45,10 +45,18 @@ def main():
                     continue
                 p = os.path.join(WT, mu["file"])
                 src = open(p).read().split("\n")
-                if src[mu["line"] - 1] != mu["old"]:
+                # The file may have moved on since the mutant was generated
+                # (fix commits): find the line again near its old place.
+                at = None
+                for d in sorted(range(-40, 41), key=abs):
+                    i = mu["line"] - 1 + d
+                    if 0 <= i < len(src) and src[i] == mu["old"]:
+                        at = i
+                        break
+                if at is None:
                     cross[o] = "stale"
                     continue
-                src[mu["line"] - 1] = mu["new"]
+                src[at] = mu["new"]
                 open(p, "w").write("\n".join(src))
                 env = dict(os.environ, VERIF_REPO=WT, VERIF_WORK=WT + "-work")
                 r = subprocess.run([os.path.join(ROOT, "vcheck"), o, "quick"], cwd=ROOT, env=env, capture_output=True, text=True)
